@@ -82,17 +82,26 @@ theorem queryLoop_ok_of_all (k : Kind) (f : Filters) : ∀ (gs : List Group) (i 
 /-- value types of the items that precede the ROI reference in a constructed container -/
 def inertVt (vt : String) : Prop := vt = "TEXT" ∨ vt = "UIDREF" ∨ vt = "CODE" ∨ vt = "NUM"
 
+/-- an item that is no ROI reference whatever its name: inert value type, or the real-world-value-map reference -/
+def InertItem (it : GItem) : Prop := inertVt it.vt ∨ (it.vt = "COMPOSITE" ∧ it.name = cRwvm)
+
 theorem roiCountStep_inert (name vt : String) (a b c d e : Int) (h : inertVt vt) :
     Gen.roiCountStep name vt a b c d e = .ok (a, b, c, d, e) := by
   unfold Gen.roiCountStep
   rcases h with h | h | h | h <;> subst h <;> simp
 
+theorem roiCountStep_inertItem (it : GItem) (a b c d e : Int) (h : InertItem it) :
+    Gen.roiCountStep it.name it.vt a b c d e = .ok (a, b, c, d, e) := by
+  rcases h with h | ⟨h1, h2⟩
+  · exact roiCountStep_inert _ _ _ _ _ _ _ h
+  · rw [h1, h2]; simp [Gen.roiCountStep, cRwvm]
+
 theorem countLoop_append_inert : ∀ (pre rest : List GItem) (c : Int × Int × Int × Int × Int),
-    (∀ it ∈ pre, inertVt it.vt) → countLoop (pre ++ rest) c = countLoop rest c
+    (∀ it ∈ pre, InertItem it) → countLoop (pre ++ rest) c = countLoop rest c
   | [], rest, c, _ => rfl
   | it :: pre, rest, (a, b, c, d, e), h => by
     simp only [List.cons_append, countLoop]
-    rw [roiCountStep_inert it.name it.vt a b c d e (h it (by simp))]
+    rw [roiCountStep_inertItem it a b c d e (h it (by simp))]
     exact countLoop_append_inert pre rest _ (fun x hx => h x (by simp [hx]))
 
 theorem lookup_some_mem {β} (k : String) : ∀ (l : List (String × β)) (v : β), l.lookup k = some v → (k, v) ∈ l
@@ -127,7 +136,7 @@ theorem covered_volumetric : Covered Gen.volumetricAllowedRefTypes := by
 
 theorem roiRefLoop_append_inert (allowed : List String) (hcov : Covered allowed) :
     ∀ (pre rest : List GItem) (rt : Option String) (acc : List GItem),
-    (∀ it ∈ pre, inertVt it.vt) → roiRefLoop allowed (pre ++ rest) rt acc = roiRefLoop allowed rest rt acc
+    (∀ it ∈ pre, InertItem it) → roiRefLoop allowed (pre ++ rest) rt acc = roiRefLoop allowed rest rt acc
   | [], _, _, _, _ => rfl
   | it :: pre, rest, rt, acc, h => by
     have ih := roiRefLoop_append_inert allowed hcov pre rest rt acc (fun x hx => h x (by simp [hx]))
@@ -140,11 +149,16 @@ theorem roiRefLoop_append_inert (allowed : List String) (hcov : Covered allowed)
           have := hcov it.name hc
           rw [hl] at this
           cases this
-        · rename_i vts hl
-          have := table_inert it.vt (h it (by simp)) _ (lookup_some_mem _ _ _ hl)
-          simp only at this
-          simp only [this, Bool.false_eq_true, if_false]
-          exact ih
+        · rename_i hc vts hl
+          rcases h it (by simp) with hin | ⟨_, hname⟩
+          · have := table_inert it.vt hin _ (lookup_some_mem _ _ _ hl)
+            simp only at this
+            simp only [this, Bool.false_eq_true, if_false]
+            exact ih
+          · rw [hname] at hl
+            have : Gen.refTypeValueTypes.lookup cRwvm = none := by decide
+            rw [this] at hl
+            cases hl
       · exact ih
 
 /-! ## the constructed container: inert prefix ++ ROI reference items -/
@@ -153,13 +167,35 @@ theorem roiRefLoop_append_inert (allowed : List String) (hcov : Covered allowed)
 def preItems (p : Params) : List GItem :=
   [{ name := cTrackingId, vt := "TEXT", rel := "HAS OBS CONTEXT", value := p.trackingId },
    { name := cTrackingUid, vt := "UIDREF", rel := "HAS OBS CONTEXT", value := p.trackingUid }] ++
+  p.ctxA ++
   optItem cFindingCategory "CODE" "CONTAINS" p.findingCategory ++
   optItem cFinding "CODE" "CONTAINS" p.findingType ++
   optItem cMethod "CODE" "CONTAINS" p.method ++
   p.sites.map (fun s => { name := cFindingSite, vt := "CODE", rel := "HAS CONCEPT MOD", value := s }) ++
+  p.ctxB ++
   p.measurements.map (fun x => { name := x.1, vt := "NUM", rel := "CONTAINS", value := x.2 }) ++
   p.evaluations.map (fun x => { name := x.1, vt := "CODE", rel := "CONTAINS", value := x.2 }) ++
   optItem cGeometricPurpose "CODE" "CONTAINS" p.purpose
+
+/-- what the optional context parts of a group (session, algorithm identification, time point context, real world value
+map) consist of: TEXT items, CODE / NUM items with relationship HAS OBS CONTEXT, the COMPOSITE real-world-value-map
+reference — none under a name the library uses for something else -/
+def ContextItemOK (it : GItem) : Prop :=
+  (it.vt = "TEXT" ∨ ((it.vt = "CODE" ∨ it.vt = "NUM") ∧ it.rel = "HAS OBS CONTEXT") ∨ (it.vt = "COMPOSITE" ∧ it.name = cRwvm)) ∧
+  fixedNames.contains it.name = false
+
+theorem contextItemOK_iff (it : GItem) : contextItemOK it = true ↔ ContextItemOK it := by
+  unfold contextItemOK ContextItemOK
+  simp only [Bool.and_eq_true, Bool.or_eq_true, beq_iff_eq, Bool.not_eq_true', or_assoc]
+
+def ContextOK (p : Params) : Prop := (∀ it ∈ p.ctxA, ContextItemOK it) ∧ (∀ it ∈ p.ctxB, ContextItemOK it)
+
+theorem contextItem_inert (it : GItem) (h : ContextItemOK it) : InertItem it := by
+  rcases h.1 with h | ⟨h | h, _⟩ | h
+  · exact Or.inl (Or.inl h)
+  · exact Or.inl (Or.inr (Or.inr (Or.inl h)))
+  · exact Or.inl (Or.inr (Or.inr (Or.inr h)))
+  · exact Or.inr h
 
 theorem mkItems_eq (p : Params) : mkItems p = preItems p ++ refItems p.ref := rfl
 
@@ -169,19 +205,21 @@ theorem optItem_inert (name rel : String) (v : Option String) : ∀ it ∈ optIt
   | none => simp [optItem] at h
   | some x => simp [optItem] at h; subst h; exact Or.inr (Or.inr (Or.inl rfl))
 
-theorem preItems_inert (p : Params) : ∀ it ∈ preItems p, inertVt it.vt := by
+theorem preItems_inert (p : Params) (hctx : ContextOK p) : ∀ it ∈ preItems p, InertItem it := by
   intro it h
   simp only [preItems, List.mem_append, List.mem_cons, List.not_mem_nil, or_false, List.mem_map] at h
-  rcases h with (((((((h | h) | h) | h) | h) | ⟨s, _, h⟩) | ⟨x, _, h⟩) | ⟨x, _, h⟩) | h
-  · subst h; exact Or.inl rfl
-  · subst h; exact Or.inr (Or.inl rfl)
-  · exact optItem_inert _ _ _ it h
-  · exact optItem_inert _ _ _ it h
-  · exact optItem_inert _ _ _ it h
-  · subst h; exact Or.inr (Or.inr (Or.inl rfl))
-  · subst h; exact Or.inr (Or.inr (Or.inr rfl))
-  · subst h; exact Or.inr (Or.inr (Or.inl rfl))
-  · exact optItem_inert _ _ _ it h
+  rcases h with (((((((((h | h) | h) | h) | h) | h) | ⟨s, _, h⟩) | h) | ⟨x, _, h⟩) | ⟨x, _, h⟩) | h
+  · subst h; exact Or.inl (Or.inl rfl)
+  · subst h; exact Or.inl (Or.inr (Or.inl rfl))
+  · exact contextItem_inert it (hctx.1 it h)
+  · exact Or.inl (optItem_inert _ _ _ it h)
+  · exact Or.inl (optItem_inert _ _ _ it h)
+  · exact Or.inl (optItem_inert _ _ _ it h)
+  · subst h; exact Or.inl (Or.inr (Or.inr (Or.inl rfl)))
+  · exact contextItem_inert it (hctx.2 it h)
+  · subst h; exact Or.inl (Or.inr (Or.inr (Or.inr rfl)))
+  · subst h; exact Or.inl (Or.inr (Or.inr (Or.inl rfl)))
+  · exact Or.inl (optItem_inert _ _ _ it h)
 
 /-! ### counting -/
 
@@ -278,17 +316,17 @@ theorem countLoop_refItems (r : RoiRef) : countLoop (refItems r) (0, 0, 0, 0, 0)
     simp only [refItems, counts]
     exact countLoop_images _ _
 
-theorem countRoi_constructed (p : Params) : countRoi (mkGroup p) = .ok (counts p.ref) := by
+theorem countRoi_constructed (p : Params) (hctx : ContextOK p) : countRoi (mkGroup p) = .ok (counts p.ref) := by
   have hg : Gen.roiCountGuard "CONTAINER" cMeasurementGroup = .ok true := by
     simp [Gen.roiCountGuard, cMeasurementGroup]
   simp only [countRoi, hg, mkGroup, mkItems_eq]
-  rw [countLoop_append_inert _ _ _ (preItems_inert p)]
+  rw [countLoop_append_inert _ _ _ (preItems_inert p hctx)]
   exact countLoop_refItems p.ref
 
 /-! ### kind -/
 
-theorem containsPlanar_constructed (p : Params) : containsPlanar (mkGroup p) = .ok (contentKind .planar p.ref) := by
-  simp only [containsPlanar, countRoi_constructed]
+theorem containsPlanar_constructed (p : Params) (hctx : ContextOK p) : containsPlanar (mkGroup p) = .ok (contentKind .planar p.ref) := by
+  simp only [containsPlanar, countRoi_constructed p hctx]
   cases p.ref with
   | regions2d rs =>
     simp only [counts, contentKind, Gen.containsPlanarRois]
@@ -302,8 +340,8 @@ theorem containsPlanar_constructed (p : Params) : containsPlanar (mkGroup p) = .
     simp
   | _ => simp [counts, contentKind, Gen.containsPlanarRois]
 
-theorem containsVolumetric_constructed (p : Params) : containsVolumetric (mkGroup p) = .ok (contentKind .volumetric p.ref) := by
-  simp only [containsVolumetric, countRoi_constructed]
+theorem containsVolumetric_constructed (p : Params) (hctx : ContextOK p) : containsVolumetric (mkGroup p) = .ok (contentKind .volumetric p.ref) := by
+  simp only [containsVolumetric, countRoi_constructed p hctx]
   cases p.ref with
   | regions2d rs =>
     simp only [counts, contentKind, Gen.containsVolumetricRois]
@@ -336,16 +374,16 @@ theorem contentKind_image (r : RoiRef) : contentKind .image r = !(contentKind .p
 theorem templateId_inj (a b : Kind) : (a.templateId == b.templateId) = (a == b) := by
   cases a <;> cases b <;> decide
 
-theorem isKind_constructed (k : Kind) (p : Params) : isKind k (mkGroup p) = .ok (specKind k p) := by
+theorem isKind_constructed (k : Kind) (p : Params) (hctx : ContextOK p) : isKind k (mkGroup p) = .ok (specKind k p) := by
   unfold isKind specKind
   cases ht : p.template
   · simp only [mkGroup, ht, Bool.false_eq_true, if_false]
     cases k with
-    | planar => exact containsPlanar_constructed p
-    | volumetric => exact containsVolumetric_constructed p
+    | planar => exact containsPlanar_constructed p hctx
+    | volumetric => exact containsVolumetric_constructed p hctx
     | image =>
-      have h1 := containsPlanar_constructed p
-      have h2 := containsVolumetric_constructed p
+      have h1 := containsPlanar_constructed p hctx
+      have h2 := containsVolumetric_constructed p hctx
       simp only [mkGroup, ht, Bool.false_eq_true, if_false] at h1 h2
       simp only [h1, h2, contentKind_image]
   · simp only [mkGroup, ht, if_true, templateId_inj]
@@ -386,7 +424,20 @@ theorem any_false_of_forall {α} (l : List α) (q : α → Bool) (h : ∀ x ∈ 
   intro x hx
   simp [h x hx]
 
-theorem containsCode_finding (p : Params) (v : String) (hc : CleanNames p) :
+theorem ctx_any_false (l : List GItem) (hl : ∀ it ∈ l, ContextItemOK it) (nm : String) (hn : fixedNames.contains nm = true)
+    (q : GItem → Bool) : l.any (fun it => it.name == nm && q it) = false := by
+  apply any_false_of_forall
+  intro it hit
+  have h1 := (hl it hit).2
+  have : (it.name == nm) = false := by
+    apply beq_eq_false_iff_ne.mpr
+    intro e
+    rw [e] at h1
+    rw [h1] at hn
+    cases hn
+  simp [this]
+
+theorem containsCode_finding (p : Params) (v : String) (hc : CleanNames p) (hctx : ContextOK p) :
     containsCode (mkGroup p) cFinding v "CONTAINS" = (p.findingType == some v) := by
   simp only [containsCode, mkGroup, mkItems_eq, preItems, List.any_append]
   have h5 : (refItems p.ref).any (fun it => it.name == cFinding && it.vt == "CODE" && it.rel == "CONTAINS" && it.value == v) = false := by
@@ -423,12 +474,16 @@ theorem containsCode_finding (p : Params) (v : String) (hc : CleanNames p) :
   have h0' : (optItem cMethod "CODE" "CONTAINS" p.method).any
       (fun it => it.name == cFinding && it.vt == "CODE" && it.rel == "CONTAINS" && it.value == v) = false := by
     cases p.method <;> simp [optItem, cMethod, cFinding]
-  rw [h0, h0', h1, h2, h3, h4, h5]
+  have hA := ctx_any_false p.ctxA hctx.1 cFinding (by decide) (fun it => it.vt == "CODE" && it.rel == "CONTAINS" && it.value == v)
+  have hB := ctx_any_false p.ctxB hctx.2 cFinding (by decide) (fun it => it.vt == "CODE" && it.rel == "CONTAINS" && it.value == v)
+  simp only [Bool.and_assoc] at hA hB ⊢
+  simp only [Bool.and_assoc] at h0 h0' h1 h2 h3 h4 h5
+  rw [h0, h0', h1, h2, h3, h4, h5, hA, hB]
   cases hf : p.findingType with
   | none => simp [optItem]
   | some x => simp [optItem]
 
-theorem containsCode_site (p : Params) (v : String) :
+theorem containsCode_site (p : Params) (v : String) (hctx : ContextOK p) :
     containsCode (mkGroup p) cFindingSite v "HAS CONCEPT MOD" = p.sites.contains v := by
   simp only [containsCode, mkGroup, mkItems_eq, preItems, List.any_append]
   have h5 : (refItems p.ref).any (fun it => it.name == cFindingSite && it.vt == "CODE" && it.rel == "HAS CONCEPT MOD" && it.value == v) = false := by
@@ -466,10 +521,13 @@ theorem containsCode_site (p : Params) (v : String) :
         have e1 : (s == v) = false := beq_eq_false_iff_ne.mpr h
         have e2 : (v == s) = false := beq_eq_false_iff_ne.mpr h'
         rw [e1, e2]
-  rw [hopt, hopt, hopt, hopt, h2, h3, h5, hs]
+  have hA := ctx_any_false p.ctxA hctx.1 cFindingSite (by decide) (fun it => it.vt == "CODE" && it.rel == "HAS CONCEPT MOD" && it.value == v)
+  have hB := ctx_any_false p.ctxB hctx.2 cFindingSite (by decide) (fun it => it.vt == "CODE" && it.rel == "HAS CONCEPT MOD" && it.value == v)
+  simp only [Bool.and_assoc] at hA hB h2 h3 h5 hs hopt ⊢
+  rw [hopt, hopt, hopt, hopt, h2, h3, h5, hs, hA, hB]
   simp [cTrackingId, cTrackingUid, cFindingSite]
 
-theorem containsUidref_tracking (p : Params) (v : String) :
+theorem containsUidref_tracking (p : Params) (v : String) (hctx : ContextOK p) :
     containsUidref (mkGroup p) cTrackingUid v "HAS OBS CONTEXT" = (p.trackingUid == v) := by
   simp only [containsUidref, mkGroup, mkItems_eq, preItems, List.any_append]
   have h5 : (refItems p.ref).any (fun it => it.name == cTrackingUid && it.vt == "UIDREF" && it.rel == "HAS OBS CONTEXT" && it.value == v) = false := by
@@ -488,14 +546,17 @@ theorem containsUidref_tracking (p : Params) (v : String) :
     intro it hit
     obtain ⟨x, _, rfl⟩ := List.mem_map.mp hit
     simp [hg x]
-  rw [hopt, hopt, hopt, hopt, hmap _ _ (by intro x; simp), hmap _ _ (by intro x; simp), hmap _ _ (by intro x; simp), h5]
+  have hA := ctx_any_false p.ctxA hctx.1 cTrackingUid (by decide) (fun it => it.vt == "UIDREF" && it.rel == "HAS OBS CONTEXT" && it.value == v)
+  have hB := ctx_any_false p.ctxB hctx.2 cTrackingUid (by decide) (fun it => it.vt == "UIDREF" && it.rel == "HAS OBS CONTEXT" && it.value == v)
+  simp only [Bool.and_assoc] at hA hB h5 hopt hmap ⊢
+  rw [hopt, hopt, hopt, hopt, hmap _ _ (by intro x; simp), hmap _ _ (by intro x; simp), hmap _ _ (by intro x; simp), h5, hA, hB]
   simp [cTrackingId, cTrackingUid]
 
-theorem commonMatches_constructed (p : Params) (f : Filters) (hc : CleanNames p) :
+theorem commonMatches_constructed (p : Params) (f : Filters) (hc : CleanNames p) (hctx : ContextOK p) :
     commonMatches (mkGroup p) f = specCommon p f := by
   unfold commonMatches specCommon optEq
   cases f.findingType <;> cases f.findingSite <;> cases f.trackingUid <;>
-    simp [containsCode_finding _ _ hc, containsCode_site, containsUidref_tracking]
+    simp [containsCode_finding _ _ hc hctx, containsCode_site _ _ hctx, containsUidref_tracking _ _ hctx]
 
 /-! ### the ROI reference items of a constructed container -/
 
@@ -555,10 +616,10 @@ theorem roiRefLoop_surfaces (gr : String) (rest : List GItem) :
     simp [cImageRegion, cVolumeSurface] at this ⊢
     exact this
 
-theorem roiRefLoop_constructed (p : Params) (allowed : List String) (hcov : Covered allowed) :
+theorem roiRefLoop_constructed (p : Params) (hctx : ContextOK p) (allowed : List String) (hcov : Covered allowed) :
     roiRefLoop allowed (mkGroup p).items none [] = roiRefLoop allowed (refItems p.ref) none [] := by
   simp only [mkGroup, mkItems_eq]
-  exact roiRefLoop_append_inert allowed hcov _ _ _ _ (preItems_inert p)
+  exact roiRefLoop_append_inert allowed hcov _ _ _ _ (preItems_inert p hctx)
 
 def region3dItem (gr : String) : GItem := { name := cImageRegion, vt := "SCOORD3D", rel := "CONTAINS", graphic := gr }
 def segframeItem (seg : Ref) : GItem := { name := cReferencedSegmentationFrame, vt := "IMAGE", rel := "CONTAINS", ref := some seg }
@@ -574,10 +635,10 @@ def planarFound : RoiRef → Option (String × GItem)
   | .regions2d [x] => some (cImageRegion, regionItem x)
   | _ => none
 
-theorem planarRefItem_constructed (p : Params) (t : String) (it : GItem) (h : planarFound p.ref = some (t, it)) :
+theorem planarRefItem_constructed (p : Params) (hctx : ContextOK p) (t : String) (it : GItem) (h : planarFound p.ref = some (t, it)) :
     planarRefItem (mkGroup p) = .ok (t, it) := by
   unfold planarRefItem roiRefItems
-  rw [roiRefLoop_constructed p _ covered_planar]
+  rw [roiRefLoop_constructed p hctx _ covered_planar]
   cases hr : p.ref with
   | region2d gr s =>
     rw [hr] at h; simp only [planarFound, Option.some.injEq, Prod.mk.injEq] at h; obtain ⟨rfl, rfl⟩ := h
@@ -610,10 +671,10 @@ def volumetricFound : RoiRef → Option (String × List GItem)
   | .regionInSpace r => some (cRegionInSpace, [risItem r])
   | _ => none
 
-theorem volumetricRefItems_constructed (p : Params) (t : String) (its : List GItem) (h : volumetricFound p.ref = some (t, its)) :
+theorem volumetricRefItems_constructed (p : Params) (hctx : ContextOK p) (t : String) (its : List GItem) (h : volumetricFound p.ref = some (t, its)) :
     roiRefItems (mkGroup p) Gen.volumetricAllowedRefTypes = .ok (t, its) ∧ its ≠ [] := by
   unfold roiRefItems
-  rw [roiRefLoop_constructed p _ covered_volumetric]
+  rw [roiRefLoop_constructed p hctx _ covered_volumetric]
   have hsrc : Gen.volumetricAllowedRefTypes.contains cSourceImageForSegmentation = false := by decide
   have hser : Gen.volumetricAllowedRefTypes.contains cSourceSeriesForSegmentation = false := by decide
   cases hr : p.ref with
@@ -667,14 +728,14 @@ theorem volumetricRefItems_constructed (p : Params) (t : String) (its : List GIt
 
 /-! ### the ROI-reference filters -/
 
-theorem containsImage_constructed (p : Params) (name rel : String) (cls inst : Option String) :
+theorem containsImage_constructed (p : Params) (hctx : ContextOK p) (name rel : String) (cls inst : Option String) :
     containsImage (mkGroup p) name rel cls inst =
       (refItems p.ref).any (fun it => it.name == name && it.vt == "IMAGE" && it.rel == rel && refMatches it.ref cls inst) := by
   simp only [containsImage, mkGroup, mkItems_eq, List.any_append]
   have : (preItems p).any (fun it => it.name == name && it.vt == "IMAGE" && it.rel == rel && refMatches it.ref cls inst) = false := by
     apply any_false_of_forall
     intro it hit
-    rcases preItems_inert p it hit with h | h | h | h <;> simp [h]
+    rcases preItems_inert p hctx it hit with (h | h | h | h) | ⟨h, _⟩ <;> simp [h]
   rw [this, Bool.false_or]
 
 theorem any_srcItems (l : List Ref) (cls inst : Option String) :
@@ -725,13 +786,13 @@ theorem pairBeq (a : Bool) (b : String) (gt : Bool × String) : (some (a, b) == 
 theorem and_congr3 {a b c b' c' : Bool} (h1 : b = b') (h2 : c = c') : (a && b && c) = (a && b' && c') := by
   rw [h1, h2]
 
-theorem planarKeep_constructed (p : Params) (f : Filters) (hc : CleanNames p) (t : String) (it : GItem)
+theorem planarKeep_constructed (p : Params) (f : Filters) (hc : CleanNames p) (hctx : ContextOK p) (t : String) (it : GItem)
     (h : planarFound p.ref = some (t, it)) : planarKeep (mkGroup p) f = .ok (specFilters .planar p f) := by
   unfold planarKeep
   cases hn : f.needsRef
-  · simp only [Bool.not_false, if_true, commonMatches_constructed p f hc, specFilters_noRef _ p f hn]
-  · simp only [Bool.not_true, Bool.false_eq_true, if_false, planarRefItem_constructed p t it h,
-      commonMatches_constructed p f hc, containsImage_constructed]
+  · simp only [Bool.not_false, if_true, commonMatches_constructed p f hc hctx, specFilters_noRef _ p f hn]
+  · simp only [Bool.not_true, Bool.false_eq_true, if_false, planarRefItem_constructed p hctx t it h,
+      commonMatches_constructed p f hc hctx, containsImage_constructed p hctx]
     unfold specFilters specUid
     simp only [Except.ok.injEq]
     cases hr : p.ref with
@@ -802,17 +863,17 @@ theorem any_regions (rs : List (String × Ref)) (cls inst : Option String) :
     simp only [List.map_cons, List.any_cons, ih]
     simp [regionItem, kidsContainImage, srcKid]
 
-theorem volumetricKeep_constructed (p : Params) (f : Filters) (hc : CleanNames p) (t : String) (its : List GItem)
+theorem volumetricKeep_constructed (p : Params) (f : Filters) (hc : CleanNames p) (hctx : ContextOK p) (t : String) (its : List GItem)
     (h : volumetricFound p.ref = some (t, its)) : volumetricKeep (mkGroup p) f = .ok (specFilters .volumetric p f) := by
   unfold volumetricKeep
   cases hn : f.needsRef
-  · simp only [Bool.not_false, if_true, commonMatches_constructed p f hc, specFilters_noRef _ p f hn]
-  · obtain ⟨hfound, hne⟩ := volumetricRefItems_constructed p t its h
+  · simp only [Bool.not_false, if_true, commonMatches_constructed p f hc hctx, specFilters_noRef _ p f hn]
+  · obtain ⟨hfound, hne⟩ := volumetricRefItems_constructed p hctx t its h
     simp only [Bool.not_true, Bool.false_eq_true, if_false, hfound]
     cases hits : its with
     | nil => exact absurd hits hne
     | cons first more =>
-      simp only [commonMatches_constructed p f hc, containsImage_constructed]
+      simp only [commonMatches_constructed p f hc hctx, containsImage_constructed p hctx]
       unfold specFilters specUid
       simp only [Except.ok.injEq]
       rw [hits] at h
@@ -893,10 +954,10 @@ theorem any_sourceImages (l : List Ref) (cls inst : Option String) :
     simp only [List.map_cons, List.any_cons, ih]
     simp
 
-theorem imageKeep_constructed (p : Params) (f : Filters) (hc : CleanNames p) (srcs : List Ref) (h : p.ref = .images srcs) :
+theorem imageKeep_constructed (p : Params) (f : Filters) (hc : CleanNames p) (hctx : ContextOK p) (srcs : List Ref) (h : p.ref = .images srcs) :
     imageKeep (mkGroup p) f = .ok (specFilters .image p f) := by
   unfold imageKeep specFilters specUid
-  simp only [commonMatches_constructed p f hc, containsImage_constructed, h, refItems, RoiRef.instances, Except.ok.injEq]
+  simp only [commonMatches_constructed p f hc hctx, containsImage_constructed p hctx, h, refItems, RoiRef.instances, Except.ok.injEq]
   congr 1
   cases f.hasUid
   · rfl
@@ -989,23 +1050,23 @@ theorem images_of_kind (p : Params) (hcons : p.consistent = true) (hk : specKind
 
 /-- **One constructed group against one query**: the loop body decides exactly `kind ∧ every filter`, both read
 off the construction parameters. -/
-theorem keep_constructed (k : Kind) (p : Params) (f : Filters) (hcons : p.consistent = true) (hc : CleanNames p) :
+theorem keep_constructed (k : Kind) (p : Params) (f : Filters) (hcons : p.consistent = true) (hc : CleanNames p) (hctx : ContextOK p) :
     keep k (mkGroup p) f = .ok (specKind k p && specFilters k p f) := by
   unfold keep
-  rw [isKind_constructed]
+  rw [isKind_constructed k p hctx]
   cases hk : specKind k p
   · rfl
   · simp only [Bool.true_and]
     cases k with
     | planar =>
       obtain ⟨t, it, h⟩ := planarFound_of_kind p hcons hk
-      exact planarKeep_constructed p f hc t it h
+      exact planarKeep_constructed p f hc hctx t it h
     | volumetric =>
       obtain ⟨t, its, h⟩ := volumetricFound_of_kind p hcons hk
-      exact volumetricKeep_constructed p f hc t its h
+      exact volumetricKeep_constructed p f hc hctx t its h
     | image =>
       obtain ⟨srcs, h⟩ := images_of_kind p hcons hk
-      exact imageKeep_constructed p f hc srcs h
+      exact imageKeep_constructed p f hc hctx srcs h
 
 /-! ### accessors of a constructed container -/
 
@@ -1064,35 +1125,53 @@ theorem filter_sites_other (p : Params) (nm : String) (h : (cFindingSite == nm) 
   obtain ⟨x, _, rfl⟩ := List.mem_map.mp hit
   simp [h]
 
-theorem findingType_constructed (p : Params) (hc : CleanNames p) : findingTypeOf (mkGroup p) = p.findingType := by
+theorem filter_ctx_other (l : List GItem) (hl : ∀ it ∈ l, ContextItemOK it) (nm vt : String) (hn : fixedNames.contains nm = true) :
+    l.filter (fun it => it.name == nm && it.vt == vt) = [] := by
+  apply filter_nil_of_forall
+  intro it hit
+  have h1 := (hl it hit).2
+  have : (it.name == nm) = false := by
+    apply beq_eq_false_iff_ne.mpr
+    intro e
+    rw [e] at h1
+    rw [h1] at hn
+    cases hn
+  simp [this]
+
+theorem findingType_constructed (p : Params) (hc : CleanNames p) (hctx : ContextOK p) : findingTypeOf (mkGroup p) = p.findingType := by
   simp only [findingTypeOf, valuesOf, mkGroup, mkItems_eq, preItems, List.filter_append]
   rw [filter_refItems_vt _ _ _ (Or.inl rfl), filter_optItem_other cGeometricPurpose cFinding _ _ _ (by decide),
     filter_evaluations_reserved p hc cFinding (by decide), filter_measurements_code, filter_sites_other p cFinding (by decide),
-    filter_optItem_other cMethod cFinding _ _ _ (by decide), filter_optItem_other cFindingCategory cFinding _ _ _ (by decide)]
+    filter_optItem_other cMethod cFinding _ _ _ (by decide), filter_optItem_other cFindingCategory cFinding _ _ _ (by decide),
+    filter_ctx_other p.ctxA hctx.1 cFinding "CODE" (by decide), filter_ctx_other p.ctxB hctx.2 cFinding "CODE" (by decide)]
   cases p.findingType <;> simp [optItem, cTrackingId, cTrackingUid, cFinding]
 
-theorem findingCategory_constructed (p : Params) (hc : CleanNames p) : findingCategoryOf (mkGroup p) = p.findingCategory := by
+theorem findingCategory_constructed (p : Params) (hc : CleanNames p) (hctx : ContextOK p) :
+    findingCategoryOf (mkGroup p) = p.findingCategory := by
   simp only [findingCategoryOf, valuesOf, mkGroup, mkItems_eq, preItems, List.filter_append]
   rw [filter_refItems_vt _ _ _ (Or.inl rfl), filter_optItem_other cGeometricPurpose cFindingCategory _ _ _ (by decide),
     filter_evaluations_reserved p hc cFindingCategory (by decide), filter_measurements_code,
     filter_sites_other p cFindingCategory (by decide), filter_optItem_other cMethod cFindingCategory _ _ _ (by decide),
-    filter_optItem_other cFinding cFindingCategory _ _ _ (by decide)]
+    filter_optItem_other cFinding cFindingCategory _ _ _ (by decide),
+    filter_ctx_other p.ctxA hctx.1 cFindingCategory "CODE" (by decide), filter_ctx_other p.ctxB hctx.2 cFindingCategory "CODE" (by decide)]
   cases p.findingCategory <;> simp [optItem, cTrackingId, cTrackingUid, cFindingCategory]
 
-theorem method_constructed (p : Params) (hc : CleanNames p) : methodOf (mkGroup p) = p.method := by
+theorem method_constructed (p : Params) (hc : CleanNames p) (hctx : ContextOK p) : methodOf (mkGroup p) = p.method := by
   simp only [methodOf, valuesOf, mkGroup, mkItems_eq, preItems, List.filter_append]
   rw [filter_refItems_vt _ _ _ (Or.inl rfl), filter_optItem_other cGeometricPurpose cMethod _ _ _ (by decide),
     filter_evaluations_reserved p hc cMethod (by decide), filter_measurements_code,
     filter_sites_other p cMethod (by decide), filter_optItem_other cFinding cMethod _ _ _ (by decide),
-    filter_optItem_other cFindingCategory cMethod _ _ _ (by decide)]
+    filter_optItem_other cFindingCategory cMethod _ _ _ (by decide),
+    filter_ctx_other p.ctxA hctx.1 cMethod "CODE" (by decide), filter_ctx_other p.ctxB hctx.2 cMethod "CODE" (by decide)]
   cases p.method <;> simp [optItem, cTrackingId, cTrackingUid, cMethod]
 
-theorem findingSites_constructed (p : Params) (hc : CleanNames p) : findingSitesOf (mkGroup p) = p.sites := by
+theorem findingSites_constructed (p : Params) (hc : CleanNames p) (hctx : ContextOK p) : findingSitesOf (mkGroup p) = p.sites := by
   simp only [findingSitesOf, valuesOf, mkGroup, mkItems_eq, preItems, List.filter_append]
   rw [filter_refItems_vt _ _ _ (Or.inl rfl), filter_optItem_other cGeometricPurpose cFindingSite _ _ _ (by decide),
     filter_evaluations_reserved p hc cFindingSite (by decide), filter_measurements_code,
     filter_optItem_other cMethod cFindingSite _ _ _ (by decide),
-    filter_optItem_other cFinding cFindingSite _ _ _ (by decide), filter_optItem_other cFindingCategory cFindingSite _ _ _ (by decide)]
+    filter_optItem_other cFinding cFindingSite _ _ _ (by decide), filter_optItem_other cFindingCategory cFindingSite _ _ _ (by decide),
+    filter_ctx_other p.ctxA hctx.1 cFindingSite "CODE" (by decide), filter_ctx_other p.ctxB hctx.2 cFindingSite "CODE" (by decide)]
   have : (p.sites.map (fun s => ({ name := cFindingSite, vt := "CODE", rel := "HAS CONCEPT MOD", value := s } : GItem))).filter
       (fun it => it.name == cFindingSite && it.vt == "CODE") =
       p.sites.map (fun s => ({ name := cFindingSite, vt := "CODE", rel := "HAS CONCEPT MOD", value := s } : GItem)) := by
@@ -1103,52 +1182,66 @@ theorem findingSites_constructed (p : Params) (hc : CleanNames p) : findingSites
   rw [this]
   simp [cTrackingId, cTrackingUid, cFindingSite, List.filter_cons, Function.comp_def]
 
-theorem measurements_constructed (p : Params) : measurementsOf (mkGroup p) = p.measurements := by
+/-- context items are never measurements or evaluations: their NUM / CODE items are observation context -/
+theorem filter_ctx_contains (l : List GItem) (hl : ∀ it ∈ l, ContextItemOK it) (vt : String) (hv : vt = "NUM" ∨ vt = "CODE")
+    (q : GItem → Bool) : l.filter (fun it => it.vt == vt && it.rel == "CONTAINS" && q it) = [] := by
+  apply filter_nil_of_forall
+  intro it hit
+  rcases (hl it hit).1 with h | ⟨_, h⟩ | ⟨h, _⟩
+  · rcases hv with hv | hv <;> subst hv <;> simp [h]
+  · simp [h]
+  · rcases hv with hv | hv <;> subst hv <;> simp [h]
+
+theorem measurements_constructed (p : Params) (hctx : ContextOK p) : measurementsOf (mkGroup p) = p.measurements := by
   simp only [measurementsOf, mkGroup, mkItems_eq, preItems, List.filter_append]
-  have hopt : ∀ (nm : String) (o : Option String), (optItem nm "CODE" "CONTAINS" o).filter (fun it => it.vt == "NUM") = [] := by
+  have hopt : ∀ (nm : String) (o : Option String), (optItem nm "CODE" "CONTAINS" o).filter (fun it => it.vt == "NUM" && it.rel == "CONTAINS") = [] := by
     intro nm o; cases o <;> simp [optItem]
-  have href : (refItems p.ref).filter (fun it => it.vt == "NUM") = [] := by
+  have href : (refItems p.ref).filter (fun it => it.vt == "NUM" && it.rel == "CONTAINS") = [] := by
     apply filter_nil_of_forall
     intro it hit
     simp [(refItems_shape p.ref it hit).2.2.1]
   have hev : (p.evaluations.map (fun x => ({ name := x.1, vt := "CODE", rel := "CONTAINS", value := x.2 } : GItem))).filter
-      (fun it => it.vt == "NUM") = [] := by
+      (fun it => it.vt == "NUM" && it.rel == "CONTAINS") = [] := by
     apply filter_nil_of_forall; intro it hit; obtain ⟨x, _, rfl⟩ := List.mem_map.mp hit; simp
   have hs : (p.sites.map (fun s => ({ name := cFindingSite, vt := "CODE", rel := "HAS CONCEPT MOD", value := s } : GItem))).filter
-      (fun it => it.vt == "NUM") = [] := by
+      (fun it => it.vt == "NUM" && it.rel == "CONTAINS") = [] := by
     apply filter_nil_of_forall; intro it hit; obtain ⟨x, _, rfl⟩ := List.mem_map.mp hit; simp
   have hm : (p.measurements.map (fun x => ({ name := x.1, vt := "NUM", rel := "CONTAINS", value := x.2 } : GItem))).filter
-      (fun it => it.vt == "NUM") = p.measurements.map (fun x => ({ name := x.1, vt := "NUM", rel := "CONTAINS", value := x.2 } : GItem)) := by
+      (fun it => it.vt == "NUM" && it.rel == "CONTAINS") = p.measurements.map (fun x => ({ name := x.1, vt := "NUM", rel := "CONTAINS", value := x.2 } : GItem)) := by
     rw [List.filter_eq_self]; intro it hit; obtain ⟨x, _, rfl⟩ := List.mem_map.mp hit; simp
-  rw [hopt, hopt, hopt, hopt, href, hev, hs, hm]
+  have hA := filter_ctx_contains p.ctxA hctx.1 "NUM" (Or.inl rfl) (fun _ => true)
+  have hB := filter_ctx_contains p.ctxB hctx.2 "NUM" (Or.inl rfl) (fun _ => true)
+  simp only [Bool.and_true] at hA hB
+  rw [hopt, hopt, hopt, hopt, href, hev, hs, hm, hA, hB]
   simp [List.filter_cons, List.map_map, Function.comp_def]
 
-theorem evaluations_constructed (p : Params) (hc : CleanNames p) : evaluationsOf (mkGroup p) = p.evaluations := by
+theorem evaluations_constructed (p : Params) (hc : CleanNames p) (hctx : ContextOK p) : evaluationsOf (mkGroup p) = p.evaluations := by
   simp only [evaluationsOf, mkGroup, mkItems_eq, preItems, List.filter_append]
   have hopt : ∀ (nm : String) (o : Option String), reservedCodeNames.contains nm = true →
-      (optItem nm "CODE" "CONTAINS" o).filter (fun it => it.vt == "CODE" && !reservedCodeNames.contains it.name) = [] := by
+      (optItem nm "CODE" "CONTAINS" o).filter (fun it => it.vt == "CODE" && it.rel == "CONTAINS" && !reservedCodeNames.contains it.name) = [] := by
     intro nm o h
     have hmem : nm ∈ reservedCodeNames := by simpa using h
     cases o <;> simp [optItem, hmem]
-  have href : (refItems p.ref).filter (fun it => it.vt == "CODE" && !reservedCodeNames.contains it.name) = [] := by
+  have href : (refItems p.ref).filter (fun it => it.vt == "CODE" && it.rel == "CONTAINS" && !reservedCodeNames.contains it.name) = [] := by
     apply filter_nil_of_forall
     intro it hit
     simp [(refItems_shape p.ref it hit).2.1]
   have hm : (p.measurements.map (fun x => ({ name := x.1, vt := "NUM", rel := "CONTAINS", value := x.2 } : GItem))).filter
-      (fun it => it.vt == "CODE" && !reservedCodeNames.contains it.name) = [] := by
+      (fun it => it.vt == "CODE" && it.rel == "CONTAINS" && !reservedCodeNames.contains it.name) = [] := by
     apply filter_nil_of_forall; intro it hit; obtain ⟨x, _, rfl⟩ := List.mem_map.mp hit; simp
   have hs : (p.sites.map (fun s => ({ name := cFindingSite, vt := "CODE", rel := "HAS CONCEPT MOD", value := s } : GItem))).filter
-      (fun it => it.vt == "CODE" && !reservedCodeNames.contains it.name) = [] := by
+      (fun it => it.vt == "CODE" && it.rel == "CONTAINS" && !reservedCodeNames.contains it.name) = [] := by
     apply filter_nil_of_forall; intro it hit; obtain ⟨x, _, rfl⟩ := List.mem_map.mp hit
-    have : cFindingSite ∈ reservedCodeNames := by decide
-    simp [this]
+    simp
   have hev : (p.evaluations.map (fun x => ({ name := x.1, vt := "CODE", rel := "CONTAINS", value := x.2 } : GItem))).filter
-      (fun it => it.vt == "CODE" && !reservedCodeNames.contains it.name) =
+      (fun it => it.vt == "CODE" && it.rel == "CONTAINS" && !reservedCodeNames.contains it.name) =
       p.evaluations.map (fun x => ({ name := x.1, vt := "CODE", rel := "CONTAINS", value := x.2 } : GItem)) := by
     rw [List.filter_eq_self]; intro it hit; obtain ⟨x, hx, rfl⟩ := List.mem_map.mp hit
     have : ¬ x.1 ∈ reservedCodeNames := by simpa using hc x hx
     simp [this]
-  rw [hopt _ _ (by decide), hopt _ _ (by decide), hopt _ _ (by decide), hopt _ _ (by decide), href, hm, hs, hev]
+  have hA := filter_ctx_contains p.ctxA hctx.1 "CODE" (Or.inr rfl) (fun it => !reservedCodeNames.contains it.name)
+  have hB := filter_ctx_contains p.ctxB hctx.2 "CODE" (Or.inr rfl) (fun it => !reservedCodeNames.contains it.name)
+  rw [hopt _ _ (by decide), hopt _ _ (by decide), hopt _ _ (by decide), hopt _ _ (by decide), href, hm, hs, hev, hA, hB]
   simp [List.filter_cons, List.map_map, Function.comp_def]
 
 /-- names of measurements and evaluations must not be ROI reference type names (the `reference_type` accessor
@@ -1167,16 +1260,26 @@ theorem referenceType_constructed (p : Params) (allowed : List String)
     (hfix : allowed.contains cTrackingId = false ∧ allowed.contains cTrackingUid = false ∧ allowed.contains cFindingCategory = false ∧
             allowed.contains cFinding = false ∧ allowed.contains cMethod = false ∧ allowed.contains cFindingSite = false ∧
             allowed.contains cGeometricPurpose = false)
-    (hc : CleanRefNames p allowed) :
+    (hsub : ∀ n, allowed.contains n = true → fixedNames.contains n = true)
+    (hc : CleanRefNames p allowed) (hctx : ContextOK p) :
     referenceTypeOf (mkGroup p) allowed = ((refItems p.ref).find? (fun it => allowed.contains it.name)).map (·.name) := by
   simp only [referenceTypeOf, mkGroup, mkItems_eq]
   rw [find?_append_none]
   intro it hit
   simp only [preItems, List.mem_append, List.mem_cons, List.not_mem_nil, or_false, List.mem_map] at hit
   obtain ⟨h1, h2, h3, h4, h4', h5, h6⟩ := hfix
-  rcases hit with (((((((h | h) | h) | h) | h) | ⟨s, _, h⟩) | ⟨x, hx, h⟩) | ⟨x, hx, h⟩) | h
+  have hctxItem : ∀ it, ContextItemOK it → allowed.contains it.name = false := by
+    intro it hok
+    cases hcon : allowed.contains it.name with
+    | false => rfl
+    | true =>
+      have := hsub it.name hcon
+      rw [hok.2] at this
+      cases this
+  rcases hit with (((((((((h | h) | h) | h) | h) | h) | ⟨s, _, h⟩) | h) | ⟨x, hx, h⟩) | ⟨x, hx, h⟩) | h
   · subst h; exact h1
   · subst h; exact h2
+  · exact hctxItem it (hctx.1 it h)
   · cases hfc : p.findingCategory with
     | none => rw [hfc] at h; simp [optItem] at h
     | some v => rw [hfc] at h; simp [optItem] at h; subst h; exact h3
@@ -1187,6 +1290,7 @@ theorem referenceType_constructed (p : Params) (allowed : List String)
     | none => rw [hm] at h; simp [optItem] at h
     | some v => rw [hm] at h; simp [optItem] at h; subst h; exact h4'
   · subst h; exact h5
+  · exact hctxItem it (hctx.2 it h)
   · subst h; exact hc.1 x hx
   · subst h; exact hc.2 x hx
   · cases hp : p.purpose with
